@@ -40,6 +40,10 @@ type Program struct {
 
 	callIdx     map[token.Pos]*ast.CallExpr
 	retIdx      map[token.Pos]string
+	provers     map[*ssa.Function]*prover
+	summaries   map[*ssa.Function]*fnSummary
+	summariesReady bool
+	noCallers   bool
 	siteCallees map[ssa.CallInstruction][]*ssa.Function
 	fnCallers   map[*ssa.Function][]ssa.CallInstruction
 }
